@@ -318,6 +318,27 @@ def m_len(ip, x):
     ip.ctx.assume(z3.And(c >= 0, c <= seq.length, z3.Implies(seq.length > 0, c > 0),
                          (c == seq.length) == distinct))
     return SInt(c)
+  if isinstance(x, SSet):
+    # len of a (finite) set: an uninterpreted cardinality, related to the cardinalities taken
+    # earlier on this path by the two facts that hold of finite sets (assumed contract):
+    #   A subset of B  implies  |A| <= |B|        A subset of B and |B| <= |A|  implies  A == B
+    c = ip.ctx.const("card", z3.IntSort())
+    ip.ctx.assume(c >= 0)
+    empty = z3.K(x.arr.sort().domain(), z3.BoolVal(False))
+    ip.ctx.assume((c == 0) == (x.arr == empty))
+    seen = ip.ctx.__dict__.setdefault("set_cards", [])
+    q = ip._qid()
+    for (arr2, c2) in seen:
+      if arr2.sort() != x.arr.sort(): continue
+      e = z3.Const("cd?%d" % q, x.arr.sort().domain())
+      sub12 = z3.ForAll([e], z3.Implies(z3.Select(x.arr, e), z3.Select(arr2, e)))
+      sub21 = z3.ForAll([e], z3.Implies(z3.Select(arr2, e), z3.Select(x.arr, e)))
+      ip.ctx.assume(z3.Implies(sub12, z3.And(c <= c2, z3.Implies(c2 <= c, x.arr == arr2))))
+      ip.ctx.assume(z3.Implies(sub21, z3.And(c2 <= c, z3.Implies(c <= c2, x.arr == arr2))))
+    seen.append((x.arr, c))
+    ip.ctx.assumed_contracts.add("len(set): cardinality of a finite set (monotone under inclusion; "
+                                 "equal cardinalities of nested sets mean equal sets)")
+    return SInt(c)
   if isinstance(x, ObjVal):
     m = ip.lookup_method(x, "__len__")
     if m is not None: return ip.call(m, [], {})
@@ -666,6 +687,10 @@ def call_method(ip, base, name, args, kwargs, node=None):
         return out, None
       return seq_concat(ip, base, other), None
     if name == "copy": return None, SSeq(base.elem, base.arrs, base.length, base.kind)
+    if name == "pop" and not args:
+      if not ip.ctx.decide(base.length > 0): ip.raise_(IndexError, "pop from empty list", node=node)
+      last = base.at(base.length - 1)
+      return SSeq(base.elem, base.arrs, base.length - 1, base.kind), last
     if name == "index" and len(args) == 1:
       # assumed contract of list/tuple.index: position of the first equal element, or ValueError
       present = ip.contains(base, args[0])
@@ -745,8 +770,13 @@ def call_method(ip, base, name, args, kwargs, node=None):
       other = args[0]
       if isinstance(other, SSet):
         if other.arr.sort() != base.arr.sort(): ip.unsupported("set.update across sorts", node)
-        f_or = z3.Or(z3.Bool("a!"), z3.Bool("b!")).decl()
-        return SSet(base.key, z3.Map(f_or, base.arr, other.arr)), None
+        # the union as a fresh array with its pointwise definition (instantiated by E-matching on
+        # reads of the result; the array-map combinator is decided far less reliably)
+        res = ip.ctx.fresh(V.SetOf(base.key), "union")
+        x = z3.Const("un?%d" % ip._qid(), base.arr.sort().domain())
+        ip.ctx.assume(z3.ForAll([x], z3.Select(res.arr, x) ==
+                                z3.Or(z3.Select(base.arr, x), z3.Select(other.arr, x))))
+        return res, None
       if isinstance(other, (list, tuple, set, frozenset)):
         out = base
         for x in (sorted(other, key=repr) if isinstance(other, (set, frozenset)) else other):
